@@ -228,6 +228,33 @@ func init() {
 	registerRule(&RuleDef{ID: "GEN-ENUM", Min: 1, Doc: "enum alias names only with enum types on", Run: ruleGENENUM})
 	registerRule(&RuleDef{ID: "L-ATOM", Min: 8, Doc: "no value read from a guarded field is used in a later critical section of the same lock (split critical section / check-then-act)", Run: ruleLATOM("client", "cache", "server", "database/inmemory")})
 	add("C05", "L-ATOM")
+	add("C08", "X1")
+	add("C09", "P-HASH")
+	add("C16", "L5")
+	add("C17", "A1")
+	add("C18", "A1p")
+	registerRule(&RuleDef{ID: "R-LEADER", Min: 2, Doc: "the leadership verdict is taken from the row of the client's own database", Run: ruleRLEADER})
+	add("C16", "R-LEADER")
+	registerRule(&RuleDef{ID: "N-SKIP", Min: 6, Doc: "the substitution/validation pass of ExpandNamedUUIDs is not skipped for any table-carrying operation", Run: ruleNSKIP})
+	add("C15", "N-SKIP")
+	add("C19", "N-SKIP")
+	add("C03", "N-SKIP")
+	registerRule(&RuleDef{ID: "X9", Min: 2, Doc: "index entries never share a set object: the set stored per index is created in that iteration", Run: ruleX9})
+	add("C05", "X9")
+	add("C06", "X9")
+	add("C08", "X9")
+	add("C10", "L2")
+	add("C14", "L2")
+	registerRule(&RuleDef{ID: "ERR-LOOP", Min: 70, Doc: "an error produced inside a loop is examined in the iteration that produced it", Run: ruleERRLOOP(analysedPkgs...)})
+	add("C09", "ERR-LOOP")
+	add("C12", "ERR-LOOP")
+	add("C19", "ERR-LOOP")
+	add("C02", "ERR-LOOP")
+	add("C03", "ERR-LOOP")
+	registerRule(&RuleDef{ID: "ERR-USE", Min: 40, Doc: "in the transaction engine and the server an error that is tested and set is used or ends the function", Run: ruleERRUSE("database/transaction", "database/inmemory", "database", "server", "updates")})
+	add("C02", "ERR-USE")
+	add("C03", "ERR-USE")
+	add("C19", "ERR-USE")
 	registerRule(&RuleDef{ID: "L-CHAN", Min: 0, Doc: "no unconditional channel send while holding a lock its receiver may need", Run: ruleLCHAN})
 	add("C18", "L-CHAN")
 	registerRule(&RuleDef{ID: "L-RPC", Min: 3, Doc: "no lock needed by a notification handler is held across a blocking RPC", Run: ruleLRPC})
